@@ -43,6 +43,14 @@
    PROVED equal to the interpreters under those conditions (C03_leaf_codecs_closed, C03_enc_item_closed,
    last section of this file).
 
+   Builder b50: the wrappers between the property tables and the codecs - tryDecodeItems, tryDecodeIRIs, tryDecodeIRI,
+   gobDecodeItems, gobDecodeObjectAsMap, gobEncodeItems, gobEncodeIRIs, gobEncodeItemOrLink - are generated statement by
+   statement too (Gen/GobR.gobr_wrappers, Gen/GobW.gobw_wrappers) and run by the interpreters of Model/GobWrap.v; the
+   hand-written forms of Model/Gob.v (dec_items, the branches of sniff_try, gd_map, callee_result, the CwItems /
+   CwItemOrLink rows of wenc0) stay, and are PROVED equal to the interpreters for every table set satisfying the
+   decidable condition wrappers_ok (C03_wrappers_tie, C03_wrappers_in_model; last section of this file), evaluated on
+   the tables of this run with a diagnosis that names the function and the statement.
+
    What remains outside: the byte level of encoding/gob and time.Time.GobEncode (g1-g4), float64 coordinates
    that are not multiples of 1e-6, and values outside wf_gob. *)
 From AP.Model Require Import Prelude Vocab Bytes Layout Pred Dispatch GobTables Gob GobCheck GobNorm GobInst GobWhole.
@@ -390,4 +398,143 @@ Example C03_codecs_condition_rejects :
   all2 glr_same [LrRetNilIfEmpty []; LrDeclare how_make0 ty_kvs []; LrDecodeLocal []; LrUnrecognised (B "for _, m := range mm { n.Set(LangRef(m.K), m.V) }") []; LrRetNil []] cr_nlv = false /\
   all2 glw_same [LwRetEmptyIfLen0 [[]] []; LwBuffer []; LwEncoder []; LwMkKvs n_value n_ref []; LwEncode n_encode n_local []; LwRetBuffer []] cw_nlv = false /\
   enc_item_ok genv_pinned = false /\ gob_whole_ok genv_pinned = false.
+Proof. vm_compute. repeat split; reflexivity. Qed.
+
+(* ================================================================ b50: the wrappers around the codecs
+   tryDecodeItems, tryDecodeIRIs, tryDecodeIRI, gobDecodeItems, gobDecodeObjectAsMap (decoding_gob.go) and
+   gobEncodeItems, gobEncodeIRIs, gobEncodeItemOrLink (encoding_gob.go) were hand-written in Model/Gob.v (dec_items,
+   the branches of sniff_try, gd_map, callee_result, the CwItems / CwItemOrLink rows of wenc0).  They are now also
+   generated from the source statement by statement (Gen/GobR.gobr_wrappers, Gen/GobW.gobw_wrappers;
+   translator/gobwrap.go) and RUN by the interpreters of Model/GobWrap.v; for every table set satisfying the decidable
+   condition wrappers_ok the interpreters ARE the hand-written definitions the theorems above are about
+   (Proofs/GobWrapP.v).  The condition is evaluated on the tables of this run, first as a diagnosis: when a wrapper
+   changes, the error names the function and the index of its first changed statement. *)
+From AP.Model Require Import Coll GobWrap.
+From AP.Proofs Require GobWrapP GobWrapRtP.
+
+Theorem C03_wrappers_first_bad_none : wrappers_first_bad gobr_wrappers gobw_wrappers = None.
+Proof. vm_compute. reflexivity. Qed.
+
+Theorem C03_wrappers_condition : wrappers_ok gobr_wrappers gobw_wrappers = true.
+Proof. vm_compute. reflexivity. Qed.
+
+(* the diagnosis answers None exactly when the condition holds, for all tables *)
+Theorem C03_wrappers_diagnosis : forall WR WW, wrappers_first_bad WR WW = None <-> wrappers_ok WR WW = true.
+Proof. exact GobWrapP.wrappers_first_bad_none. Qed.
+
+(* THE TIE, for every table set satisfying the condition, every environment, every decoder of the nested byte
+   strings, every wire and every receiver:
+   - tryDecodeItems appends to what the list held, in order, what gobDecodeItem returns for each element - nothing
+     merged, nothing skipped; into a fresh list it is dec_items;
+   - tryDecodeIRIs / tryDecodeIRI are the GobDecode methods of the pointee (the b43 interpreters);
+   - gobDecodeItems is dec_items, gobDecodeObjectAsMap is gd_map;
+   - one attempt of gobDecodeItem with its callee run from the table is sniff_try, hence so is the whole sniffing loop;
+   - gobEncodeItems / gobEncodeIRIs / gobEncodeItemOrLink are the forms Model/Gob.v writes in callee_result, wenc0
+     and genc_items. *)
+Theorem C03_wrappers_tie : forall WR WW E, wrappers_ok WR WW = true ->
+  (forall rec cur w, wr_try_items WR rec cur w = omap (fun l => cur ++ l) (dec_items rec w)) /\
+  (forall rec w, wr_try_items WR rec [] w = dec_items rec w) /\
+  (forall v w, wr_try_leaf WR E fn_try_iris v w = dec_iris_t E w v) /\
+  (forall v w, wr_try_leaf WR E fn_try_iri v w = lr_method E n_iri_dec v w) /\
+  (forall rec w, wr_decode_items WR rec w = dec_items rec w) /\
+  (forall w, wr_as_map WR w = gd_map w) /\
+  (forall rec fn w, sniff_try_t WR E rec fn w = sniff_try E rec fn w) /\
+  (forall rec l w, GobWrapP.sniff_run_t WR E rec l w = sniff_run E rec l w) /\
+  (forall ws, ww_encode_items WW ws = WList ws) /\
+  (forall enc l, ww_encode_iris WW enc l = WOpaque (enc l)) /\
+  (forall o, ww_item_or_link WW o = o).
+Proof.
+  intros WR WW E H. apply andb_true_iff in H. destruct H as [HR HW].
+  split; [exact (GobWrapP.try_items_closed WR HR)|]. split; [exact (GobWrapP.try_items_fresh WR HR)|].
+  split; [exact (GobWrapP.try_iris_closed WR E HR)|]. split; [exact (GobWrapP.try_iri_closed WR E HR)|].
+  split; [exact (GobWrapP.decode_items_closed WR HR)|]. split; [exact (GobWrapP.as_map_closed WR HR)|].
+  split; [exact (GobWrapP.sniff_try_closed WR E HR)|]. split; [exact (GobWrapP.sniff_run_closed WR E HR)|].
+  split; [exact (GobWrapP.encode_items_closed WW HW)|]. split; [exact (GobWrapP.encode_iris_closed WW HW)|].
+  exact (GobWrapP.item_or_link_closed WW HW).
+Qed.
+
+(* the places of the model where the hand-written forms stand, rewritten with the interpreters: the encoder calls of
+   gobEncodeItem and of the property tables, the decoder call gobDecodeItems of the property tables, gobDecodeItems
+   at top level, and the frame of (T).GobDecode *)
+Theorem C03_wrappers_in_model : forall WR WW E, wrappers_ok WR WW = true ->
+  (forall enc_iris enc_link x,
+     callee_result enc_iris enc_link fn_enc_iris x =
+       match x with PiIris l => ww_encode_iris WW enc_iris l | _ => WRaw gob_garbage end /\
+     callee_result enc_iris enc_link fn_enc_items x =
+       match x with PiItems ws => ww_encode_items WW ws | PiIris l => ww_encode_items WW (map wraw l) | _ => WRaw gob_garbage end) /\
+  (forall l, wenc0 E CwItems (Some (PItems l)) = ww_encode_items WW l) /\
+  (forall o, wenc0 E CwItemOrLink (Some (PItem o)) = ww_item_or_link WW o) /\
+  (forall l, Gob.genc_items E l = ww_encode_items WW (map (genc E) l)) /\
+  (forall rec cur w, rdec0 E rec CrItems cur w = obind (wr_decode_items WR rec w) (fun l => Ok (FItems (Some l)))) /\
+  (forall w, gdec_items E w = wr_decode_items WR (dec_fuel E (S (wire_depth w))) w) /\
+  (forall k w, gdec_k E k w =
+     match w with
+     | WEmpty => Ok []
+     | _ => obind (wr_as_map WR w) (fun mm =>
+            obind (gunmap E (dec_fuel E (S (wire_depth w))) (rtable_method E k) mm []) (fun fs => Ok (Gob.canon_fields E k fs)))
+     end).
+Proof.
+  intros WR WW E H. apply andb_true_iff in H. destruct H as [HR HW].
+  split; [intros; exact (GobWrapP.callee_result_closed WW HW enc_iris enc_link x)|].
+  destruct (GobWrapP.wenc_items_closed WW HW E) as (A & _ & _ & B & C).
+  split; [exact A|]. split; [exact B|]. split; [exact C|].
+  split; [exact (GobWrapP.rdec_items_closed WR E HR)|]. split; [exact (GobWrapP.gdec_items_closed WR E HR)|].
+  exact (GobWrapP.gdec_k_closed WR E HR).
+Qed.
+
+(* the round trip of an item list through the interpreted gobEncodeItems / gobDecodeItems / tryDecodeItems: C03's
+   whole-value theorem transported along the tie; every member comes back (up to its normal form), in order, none merged *)
+Theorem C03_items_roundtrip_through_tables_generic : forall E WR WW, gob_whole_ok E = true -> wrappers_ok WR WW = true ->
+  forall l : list item, wf_gob E (IItems false (Some l)) = true ->
+  exists l', wr_decode_items WR (gdec E) (ww_encode_items WW (map (genc E) l)) = Ok l' /\
+             map (norm_item (ge_layout E) (ge_layout_endpoints E)) l' = map (norm_item (ge_layout E) (ge_layout_endpoints E)) l.
+Proof. exact GobWrapRtP.items_roundtrip_tables. Qed.
+
+Theorem C03_items_roundtrip_through_tables : forall l : list item, wf_gob genv (IItems false (Some l)) = true ->
+  exists l', wr_decode_items gobr_wrappers (gdec genv) (ww_encode_items gobw_wrappers (map (genc genv) l)) = Ok l' /\
+             map (norm_item layout_of layout_endpoints) l' = map (norm_item layout_of layout_endpoints) l.
+Proof. exact (GobWrapRtP.items_roundtrip_tables genv gobr_wrappers gobw_wrappers C03_whole_condition C03_wrappers_condition). Qed.
+
+(* non-vacuity: the interpreters compute on the tables of this run.  Two equal members both come back (the hand model's
+   and the code's `append`); a property map is opened; the encoder side writes the forms the model writes *)
+Definition c03_x : bytes := B "https://example.com/x".
+Example C03_wrappers_run :
+  wr_try_items gobr_wrappers (gdec genv) [] (WList [WRaw c03_x; WRaw c03_x; WList [WRaw c03_x]])
+    = Ok [IIri false c03_x; IIri false c03_x; IItems false (Some [IIri false c03_x])] /\
+  wr_try_items gobr_wrappers (gdec genv) [INil] (WList [WRaw c03_x]) = Ok [INil; IIri false c03_x] /\
+  wr_try_items gobr_wrappers (gdec genv) [] (WRaw c03_x) = Err /\
+  wr_decode_items gobr_wrappers (gdec genv) (WList [WRaw c03_x; WRaw c03_x]) = Ok [IIri false c03_x; IIri false c03_x] /\
+  wr_try_leaf gobr_wrappers genv fn_try_iri (LvStr []) (WRaw c03_x) = Ok (LvStr c03_x) /\
+  wr_try_leaf gobr_wrappers genv fn_try_iris (LvStrs []) (WCat (WOpaque (WList [WRaw c03_x])) (WList [WRaw c03_x])) = Ok (LvStrs [c03_x]) /\
+  wr_as_map gobr_wrappers (WMap [(B "id", WRaw c03_x)]) = Ok [(B "id", WRaw c03_x)] /\
+  wr_as_map gobr_wrappers (WList []) = Err /\
+  ww_encode_items gobw_wrappers [WRaw c03_x; WRaw c03_x] = WList [WRaw c03_x; WRaw c03_x] /\
+  ww_encode_iris gobw_wrappers (wenc_iris_t genv) [c03_x] = WOpaque (WList [WRaw c03_x]) /\
+  ww_item_or_link gobw_wrappers (WRaw c03_x) = WRaw c03_x /\
+  wf_gob genv (IItems false (Some [IIri false c03_x; IIri false c03_x])) = true.
+Proof. vm_compute. repeat split; reflexivity. Qed.
+
+(* THE CONDITIONS REJECT the tables two realistic source changes produce, name the place, and the interpreters give
+   the changed tables their meaning - which is not the hand model's:
+   (1) tryDecodeItems storing through the de-duplicating method, `_ = items.Append(ob)` instead of
+       `*items = append( *items, ob)` (seeded change C03-11: obligations all held before, caught by correspondence and
+       natively only): statement 3 of tryDecodeItems differs, and the changed table loses the second of two equal members
+       (and, through gobDecodeItems, every repeated recipient of a decoded list);
+   (2) gobEncodeUint narrowing its argument, `gg.Encode(uint32(i))` (seeded change C03-12): codecs_ok names
+       gobEncodeUint, and the changed table writes the number modulo 2^32. *)
+Example C03_wrappers_condition_rejects :
+  wrappers_ok (wr_edit_append gobr_wrappers) gobw_wrappers = false /\
+  wrappers_first_bad (wr_edit_append gobr_wrappers) gobw_wrappers = Some (fn_try_items, 3) /\
+  wr_try_items (wr_edit_append gobr_wrappers) (gdec genv) [] (WList [WRaw c03_x; WRaw c03_x]) = Ok [IIri false c03_x] /\
+  wr_decode_items (wr_edit_append gobr_wrappers) (gdec genv) (WList [WRaw c03_x; WRaw c03_x]) = Ok [IIri false c03_x] /\
+  dec_items (gdec genv) (WList [WRaw c03_x; WRaw c03_x]) = Ok [IIri false c03_x; IIri false c03_x] /\
+  codecs_ok (env_edit_uint32 genv) = false /\ bad_codecs (env_edit_uint32 genv) = [n_uint_enc] /\
+  gob_whole_ok (env_edit_uint32 genv) = false /\
+  lw_exec (env_edit_uint32 genv) n_uint_enc (LvUint 4294967303) = WUint 7 /\
+  lw_exec genv n_uint_enc (LvUint 4294967303) = WUint 4294967303 /\
+  (* other edits: a wrapper that no longer checks the decode error, a missing function, an encoder that ranges over
+     something else *)
+  all2 gwr_same [WrDeclare how_make0 ty_bytelist []; WrDecoder []; WrUnrecognised (B "g.Decode(&tt)") []; WrEachDecode n_dec_item how_append []; WrRetNil []] cr_try_items = false /\
+  wrappers_first_bad [] gobw_wrappers = Some (fn_try_items, 0) /\
+  wrappers_first_bad gobr_wrappers [(fn_enc_items, [WwBuffer []; WwDeclare ty_bytelist []; WwEncode src_local []; WwRetBufferErr []])] = Some (fn_enc_items, 2).
 Proof. vm_compute. repeat split; reflexivity. Qed.
